@@ -80,4 +80,9 @@ def obligations(tier):
                            'recognizers_number_with_unit.number_with_unit.models:AbstractNumberWithUnitModel.parse'],
                   stubs=['BaseMergedExtractor.add_to wrapped by a recording monitor (calls the real one)'],
                   engine='symx (solver-driven small-scope enumeration); the recognisers run natively'))
+    obs.append(Ob('O12.7-corpus-disjoint', 'fn', 'harness.corpus:span_scan', slices=[{'culture': c} for c in ('en-us', 'es-es', 'fr-fr', 'pt-br', 'zh-cn')], timeout=max(t, 600),
+                  descr='composition check (not a solver verdict): the inputs of the model-level Specs files (a pool of realistic queries; expected outputs not consulted) through the public recognisers: the returned '
+                        'entities are pairwise disjoint (and satisfy the span contract); monitor-attributed F3a / F36 / F37 / F41 pairs excused, the two Spanish inputs of F43 skipped',
+                  bounds='about 6 000 queries in 5 cultures'))
+    obs.append(Ob('O12.7-witness-es', 'fn', 'harness.witness:api_witness', slices=[{'w': 'F43'}], timeout=t, finding='F43', descr='API witness of F43 (es-es overlapping date-time entities)'))
     return obs
